@@ -456,6 +456,7 @@ func (r *resolver) findMatch(ctx context.Context, requirements []resolve.Version
 			if err != nil {
 				return resolve.Version{}, err
 			}
+			versions = slices.Clone(versions) // The client owns the slice it returned.
 			resolve.SortVersions(versions)
 			slices.Reverse(versions)
 		}
